@@ -328,7 +328,7 @@ pub fn property(_tier: Tier) -> Property {
             Box::new(RandomPart {
                 name: "tag_strings",
                 rule: "proptest: candidate tag strings (valid alphabet, known names in random letter case, known names with one inserted arbitrary char, strings with one forbidden char, arbitrary Unicode); try_from is Ok iff non-empty and all of [A-Za-z_-], known names give the named variant, name round trip; non-trivial = known name in some case, unknown valid name, or exactly one forbidden character",
-                cases: (50_000, 2_000_000),
+                cases: (50_000, 30_000_000),
                 strategy: Box::new(|_t: Tier| tag_string().prop_map(|s| StrCase { s }).boxed()),
                 check: Box::new(check_try_from),
             }),
